@@ -226,6 +226,68 @@ def r7_custom_unit_factor(ctx):
              "a unit definition is evaluated with the units defined before it in scope")
 
 
+TNUM = "src/scinumtools/dip/datatypes/type_number.py"
+
+
+def _ret_exprs(fn):
+    return [r.value for r in ast.walk(fn) if isinstance(r, ast.Return) and r.value is not None]
+
+
+def _isclose_calls(node):
+    return [c for c in ast.walk(node) if isinstance(c, ast.Call) and dotted_name(c.func) in ("np.isclose", "isclose", "math.isclose", "numpy.isclose")]
+
+
+def r8_comparisons(ctx):
+    from ..literal import Evaluator
+    smod = ctx.repo.module("src/scinumtools/dip/settings.py")
+    prec = Evaluator(ctx.repo, smod).ev(ctx.repo.class_attr(smod, smod.classes["Numeric"], "PRECISION")[1])
+    ctx.check(prec == 1e-6, "src/scinumtools/dip/settings.py", "Numeric", "equality tolerance is 1e-6 (relative)", detail=prec)
+    c = ctx.repo.cls(TNUM, "NumberType")
+    ms = methods(c)
+    # equality: every numeric return is an isclose with the relative tolerance
+    eq = ms.get("__eq__")
+    calls = _isclose_calls(eq) if eq is not None else []
+    ok = bool(calls) and all(any(k.arg in ("rtol", "rel_tol") and norm(k.value) == "Numeric.PRECISION" for k in c2.keywords) for c2 in calls)
+    ctx.check(ok, TNUM, "NumberType.__eq__", "numeric equality is isclose with the relative tolerance Numeric.PRECISION", detail=[norm(x)[:70] for x in calls])
+    # inequality: negation of the tolerant equality
+    ne = ms.get("__ne__")
+    if ne is None:
+        ctx.violated(TNUM, "NumberType", "__ne__", detail="missing")
+    else:
+        src = norm(ne)
+        neg_eq = "not self.__eq__(other)" in src or "not self == other" in src or (bool(_isclose_calls(ne)) and "not " in src)
+        exact = any(isinstance(x, ast.Compare) and isinstance(x.ops[0], ast.NotEq) and {norm(x.left), norm(x.comparators[0])} == {"left", "right"} for x in ast.walk(ne))
+        if neg_eq and not exact:
+            ctx.holds(TNUM, "NumberType.__ne__", "inequality is the negation of the tolerant equality")
+        elif exact:
+            ctx.violated(TNUM, "NumberType.__ne__", "inequality is the negation of the tolerant equality", detail="exact `left != right`",
+                         expected="a value equal within 1e-6 must not also be unequal")
+        else:
+            ctx.unrecognised(TNUM, "NumberType.__ne__", "shape", src[:120])
+    for m, op in (("__lt__", ast.Lt), ("__gt__", ast.Gt)):
+        f = ms.get(m)
+        cmps = [x for r in _ret_exprs(f) for x in ast.walk(r) if isinstance(x, ast.Compare)] if f is not None else []
+        ok = len(cmps) == 1 and isinstance(cmps[0].ops[0], op) and norm(cmps[0].left) == "left" and norm(cmps[0].comparators[0]) == "right"
+        ctx.check(ok, TNUM, f"NumberType.{m}", "strict comparison of (left, right) in that order", detail=[norm(x) for x in cmps])
+    for m, op in (("__le__", ast.Lt), ("__ge__", ast.Gt)):
+        f = ms.get(m)
+        if f is None:
+            ctx.violated(TNUM, "NumberType", m, detail="missing")
+            continue
+        rets = _ret_exprs(f)
+        cmps = [x for r in rets for x in ast.walk(r) if isinstance(x, ast.Compare)]
+        calls = [x for r in rets for x in _isclose_calls(r)]
+        ok = len(cmps) == 1 and isinstance(cmps[0].ops[0], op) and norm(cmps[0].left) == "left" and norm(cmps[0].comparators[0]) == "right" and len(calls) == 1 and \
+            any(k.arg == "rtol" and norm(k.value) == "Numeric.PRECISION" for k in calls[0].keywords) and \
+            any(isinstance(x, (ast.BinOp, ast.BoolOp)) and isinstance(getattr(x, "op", None), (ast.BitOr, ast.Or)) for r in rets for x in ast.walk(r))
+        ctx.check(ok, TNUM, f"NumberType.{m}", "strict comparison OR tolerant equality", detail=[norm(r)[:90] for r in rets])
+    # operands are brought to a common unit before comparing
+    pr = ms.get("_prepare")
+    src = norm(pr) if pr is not None else ""
+    ctx.check(src.count("self.convert(other.unit)") >= 2 and "other.convert(self.unit)" in src, TNUM, "NumberType._prepare",
+              "numeric operands are converted to a common unit before they are compared", detail=None)
+
+
 RULES = [
     ("C18.R1", "DIP solver configurations: maximal munch, handler exhaustiveness, default step order, blank-delimited symbols, documented priorities and function names", r1_configurations),
     ("C18.R2", "sign rewriting of the DIP copies = sign algebra (sibling decision tables with quantities as atoms)", r2_sign_siblings),
@@ -234,4 +296,5 @@ RULES = [
     ("C18.R5", "no unit scope is re-entered from its own body", r5_no_nested_scope),
     ("C18.R6", "template formatting and brace/consumption discipline", r6_templates),
     ("C18.R7", "custom unit factors are recorded in base units by both registration paths", r7_custom_unit_factor),
+    ("C18.R8", "comparison semantics: == isclose(rtol=1e-6); != its negation; < > strict in (left, right) order; <= >= strict-or-tolerant; common unit first", r8_comparisons),
 ]
